@@ -178,7 +178,7 @@ def deductive(rep: Report, tier):
                    "return.iterate_exhausted", "return.histories_exhausted"] + [f"hist.{k}.appends" for k in KEYS] + \
                   ([f"hist.{k}.value_of_new_iterate" for k in KEYS] if resid else [])
         run_case(rep, P, NS, name, setup, post, contracts=ALGEBRA, lib=lib, clauses=clauses,
-                 loop_rules={(NS, 0): IterRule("X", ["covariances"], ["residuals"])}, replay=replay_traj("ns"), timeout_s=20)
+                 loop_rules={(NS, 0): IterRule("X", ["covariances"], ["residuals"])}, replay=replay_traj("ns"), timeout_s=20, loop_end=True)
 
     # sparse input: the conversion branch yields the dense matrix with the same components (budget 0 run)
     def setup_sp(I, ctx):
@@ -268,7 +268,7 @@ def deductive(rep: Report, tier):
                 "stop.only_below_tol", "stop.always_below_tol", "return.iterate", "return.triple", "return.iterate_exhausted",
                 "return.histories_exhausted"] + [f"hist.{k}.appends" for k in KEYS] + [f"hist.{k}.value_of_new_iterate" for k in KEYS]
     run_case(rep, P, HON, "", setup_h, post_h, contracts=ALGEBRA, lib=lib, clauses=hclauses,
-             loop_rules={(HON, 0): IterRule("T", ["times_per_iter"], ["residuals"])}, replay=replay_traj("hon"), timeout_s=20)
+             loop_rules={(HON, 0): IterRule("T", ["times_per_iter"], ["residuals"])}, replay=replay_traj("hon"), timeout_s=20, loop_end=True)
     lemmas(rep)
 
 
